@@ -204,6 +204,12 @@ func (s *asgAPI) TerminateInstanceInAutoScalingGroup(in *autoscaling.TerminateIn
 	id := awsapi.StringValue(in.InstanceId)
 	c := w.beginCall(OpTerminateASG, id)
 	c.IDs = []string{id}
+	if i, ok := a.insts[id]; ok && i.NodeName != "" && w.ctx != "" {
+		if w.lastTerminateNode == nil {
+			w.lastTerminateNode = map[string]string{}
+		}
+		w.lastTerminateNode[w.ctx] = i.NodeName
+	}
 	c.DecrementSet = in.ShouldDecrementDesiredCapacity != nil
 	c.Decrement = awsapi.BoolValue(in.ShouldDecrementDesiredCapacity)
 	fault := w.drawFault(c)
